@@ -24,5 +24,5 @@ void sync(Substrate& s, unsigned W, unsigned R, bool b, bool a, const std::strin
 }
 void resetMirrors(Substrate& s) { s.reset_mirrorField<Reduce_min_f_min>(); }
 } // namespace
-const c18::FieldVT c18::vt_f_min = {"f_min", "GALOIS_SYNC_STRUCTURE_REDUCE_MIN(atomic<uint32_t>)", R_MIN, K_U32, 1, true,
+const c18::FieldVT c18::vt_f_min = {"f_min", "GALOIS_SYNC_STRUCTURE_REDUCE_MIN(atomic<uint32_t>)", R_MIN, K_U32, 1, true, true,
                                     store, load, write, &bitset_f_min, sync, resetMirrors};
